@@ -48,6 +48,9 @@ def case(g, tier, ci):
         chosen = {}
     for ch, d in chosen.items():
         ops.append({"op": "sq.setDelay", "id": "s", "ch": ch, "v": enc(d / SR if SR != 100 or d != 29 else 0.29)})
+    if ci % 4 == 1:
+        # a (long) delay stored for a channel this sequence does not have
+        ops.append({"op": "sq.setDelay", "id": "s", "ch": r.choice([9, "Z"]), "v": enc(r.choice([40, 290]) / SR)})
     ops += [{"op": "sq.forge", "id": "s", "delays": True, "filters": False, "time": r.random() < 0.3, "_d": True},
             {"op": "sq.forge", "id": "s", "delays": False, "filters": False, "time": False, "_u": True}]
     if not info["subs"]:
@@ -87,6 +90,7 @@ def post_check(ops, ri, rm):
     for pos in fu:
         for p2 in fu[pos]["content"]:
             du, dd = fu[pos]["content"][p2]["data"], fd[pos]["content"][p2]["data"]
+            M = max([D.get(str(ch), 0) for ch in du] + [0])       # a delay stored for a channel the sequence lacks moves nothing
             for ch in du:
                 d = D.get(str(ch), 0)
                 for name in du[ch]:
